@@ -1,8 +1,8 @@
-import CssVerif.Lemmas.Urls
+import CssVerif.Lemmas.UrlsKept
 /-!
 # C19 — URL enumeration/replacement exact; flattening @imports preserves meaning
 
-Property theorems only (helpers are in `Lemmas/Urls.lean`). Model: `Model/Urls.lean`, tied to
+Property theorems only (helpers are in `Lemmas/Urls.lean`, `Lemmas/UrlsKept.lean`). Model: `Model/Urls.lean`, tied to
 `cssutils/__init__.py:183-458`, `cssimportrule.py:273-362`, `cssstylesheet.py:496-913` and to CPython's
 `posixpath` / `urllib.parse` by the correspondence of `tools/harness/c19.py`.
 -/
@@ -491,6 +491,163 @@ theorem kept_nested_import_keeps_its_href :
   constructor
   · decide +kernel
   · decide
+end
+
+/-! ## T19.3 with kept imports — `resolveImports` is the specification `flatSpec`
+
+`Flat` above has no place for an @import that stays. The specification `flatSpec` (`Model/Urls.lean`, Part 4) has:
+the *groups* of the rules of a sheet in document order (`cascRules`) —
+  an @charset: nothing;  a comment, style, @media, @page, @font-face, unknown rule: itself;
+  an @import whose target was not found: the @import, looked for again from the flattened sheet (`keep1`);
+  an @import without media: marker comment, then the flattened target (recursively `hoist (cascRules …)`), its url()
+    values re-based with the @import's href, the @imports kept in it taken over (`keepAll`);
+  an @import with media whose flattened target holds comments and style rules only: marker comment, one @media rule;
+  any other @import with media: marker comment, the @import as it is —
+and then the kept @imports moved to the front, behind a leading comment (`hoist`); no insertion position occurs in it.
+
+Full statement (NOT provable: the known findings): the flattened sheet means what the tree meant. What is proved is
+that the code computes exactly `flatSpec` wherever `flatSpec` has a value; it has none (`unsupported`) for trees
+with an @namespace rule (their place in the target is C15's kernel) and where the model of `urljoin` has none, and it
+raises where re-basing raises. The differences between `flatSpec` and the full statement are then visible in the
+specification itself: `hoist` (C19-kept-import-hoisted), `replRules` leaving @import rules alone
+(C19-kept-import-not-rebased), `keep1` fetching (C19-unavailable-refetched). -/
+
+/-- T19.3 [W1, generalised to kept imports]: wherever the specification has a value — trees with unavailable
+targets, with groups that cannot be wrapped, at any depth, any file system and fetcher — `resolveImports` returns
+exactly that sheet and makes exactly the fetcher calls of the specification.
+Still `_partial`: trees with @namespace rules are outside (the specification has no value there). -/
+theorem resolveImports_flat_kept_partial (vfs : Vfs) (who : Who) (href : Str) (sheet out : Sheet)
+    (h : (flatSpec vfs who href sheet).val = .ok out) :
+    resolveImports vfs who href sheet = flatSpec vfs who href sheet :=
+  resolveImports_eq_flatSpec vfs who href sheet out h
+
+/-- … into an existing target: the groups are added one rule after the other (`run` = `target.add` in a loop) -/
+theorem resolveRules_adds_groups (vfs : Vfs) (who : Who) (href : Str) (target sheet c : Sheet)
+    (h : (cascRules vfs who href sheet).val = .ok c) :
+    resolveRules vfs who href target sheet = ⟨.ok (run target c), (cascRules vfs who href sheet).log⟩ :=
+  resolveRules_casc vfs who sheet href target c h
+
+/-- adding rules one by one to an empty sheet is hoisting: the positions `CSSStyleSheet.insertRule(inOrder=True)`
+computes (after the last @import / after a leading comment / at the top) amount to "kept @imports first" -/
+theorem adding_in_order_is_hoisting (c : List Rule) : run [] c = hoist c := run_nil_eq_hoist c
+
+/-- the specification of the last round is the special case without kept imports: on a tree described by `Flat`
+the groups are the flattened sheet, nothing is hoisted and nothing fetched — so `resolveImports_flat_partial` is an
+instance of `resolveImports_flat_kept_partial` -/
+theorem flatSpec_generalises_flat (vfs : Vfs) (who : Who) (href : Str) (sheet out : Sheet) (h : Flat sheet out) :
+    flatSpec vfs who href sheet = ⟨.ok out, []⟩ := by
+  simp only [flatSpec, cascRules_flat vfs who h href]
+  rw [hoist_noImp out (fun r hr => isPlain_notImp r (h.plain_out r hr))]
+
+/-- cascade order including kept imports: hoisting keeps the kept @imports in their order, the other rules in
+their order, loses and invents nothing — for every list of groups -/
+theorem hoist_keeps_both_orders (c : List Rule) :
+    (hoist c).filter isImp = c.filter isImp ∧
+    (hoist c).filter (fun r => !isImp r) = c.filter (fun r => !isImp r) ∧
+    (hoist c).length = c.length ∧ ∀ r, r ∈ hoist c ↔ r ∈ c :=
+  ⟨hoist_imports c, hoist_others c, hoist_length c, hoist_mem c⟩
+
+/-- … so in the flattened sheet the rules that are not @imports stand in the cascade order of the groups, and so do
+the kept @imports -/
+theorem flattened_keeps_both_orders (vfs : Vfs) (who : Who) (href : Str) (sheet c : Sheet)
+    (h : (cascRules vfs who href sheet).val = .ok c) :
+    ∃ out, (resolveImports vfs who href sheet).val = .ok out ∧
+      out.filter isImp = c.filter isImp ∧ out.filter (fun r => !isImp r) = c.filter (fun r => !isImp r) := by
+  refine ⟨hoist c, ?_, hoist_imports c, hoist_others c⟩
+  have : (flatSpec vfs who href sheet).val = .ok (hoist c) := by simp [flatSpec, h]
+  rw [resolveImports_flat_kept_partial vfs who href sheet _ this, this]
+
+/-- where the kept @imports go (the general form of C19-kept-import-hoisted): either the groups start with a rule
+that is not an @import and stays in front — a comment — and all kept @imports follow it, or the kept @imports come
+first; everything else behind them -/
+theorem kept_imports_are_hoisted (c : List Rule) :
+    (∃ x rest, c = x :: rest ∧ isImp x = false ∧
+      hoist c = x :: (rest.filter isImp ++ rest.filter (fun r => !isImp r))) ∨
+    hoist c = c.filter isImp ++ c.filter (fun r => !isImp r) := hoist_cases c
+
+/-- without a kept @import nothing is moved -/
+theorem nothing_hoisted_without_kept_imports (c : List Rule) (h : ∀ r ∈ c, isImp r = false) : hoist c = c :=
+  hoist_noImp c h
+
+/-- the groups of a sheet are the groups of its rules in document order -/
+theorem groups_in_document_order (vfs : Vfs) (who : Who) (th : Str) (r : Rule) (rs : List Rule) (c d : List Rule)
+    (l1 l2 : FLog) (h1 : cascRule vfs who th r = ⟨.ok c, l1⟩) (h2 : cascRules vfs who th rs = ⟨.ok d, l2⟩) :
+    cascRules vfs who th (r :: rs) = ⟨.ok (c ++ d), l1 ++ l2⟩ := by
+  simp [cascRules, h1, h2]
+
+/-- the group of an @import with media whose target cannot be wrapped (it still holds a kept @import, or an @page,
+@font-face, @media … rule): the marker comment and the @import as it is, and nothing of its target -/
+theorem group_of_unwrappable_import (vfs : Vfs) (who : Who) (th href media ihref : Str) (sheet ci : Sheet) (l : FLog)
+    (rebased : Sheet × List Str)
+    (hi : cascRules vfs who ihref sheet = ⟨.ok ci, l⟩)
+    (hre : replRules (replacer href) (hoist ci) = .ok rebased)
+    (hm : media ≠ mediaAll) (hc : rebased.1.all combinable = false) :
+    cascRule vfs who th (.imp href media true ihref sheet)
+      = ⟨.ok [.comment (startComment href), .imp href media true ihref sheet], l⟩ := by
+  simp [cascRule, hi, hre, hm, hc]
+
+/-- the group of an @import with media whose flattened target holds comments and style rules only -/
+theorem group_of_wrapped_import (vfs : Vfs) (who : Who) (th href media ihref : Str) (sheet ci : Sheet) (l : FLog)
+    (rebased : Sheet × List Str)
+    (hi : cascRules vfs who ihref sheet = ⟨.ok ci, l⟩)
+    (hre : replRules (replacer href) (hoist ci) = .ok rebased)
+    (hm : media ≠ mediaAll) (hc : rebased.1.all combinable = true) :
+    cascRule vfs who th (.imp href media true ihref sheet)
+      = ⟨.ok [.comment (startComment href), .media media rebased.1], l⟩ := by
+  simp [cascRule, hi, hre, hm, hc]
+
+/-- the group of an @import without media: marker comment, then the flattened, re-based target with its kept
+@imports taken over -/
+theorem group_of_merged_import (vfs : Vfs) (who : Who) (th href ihref : Str) (sheet ci m : Sheet) (l l' : FLog)
+    (rebased : Sheet × List Str)
+    (hi : cascRules vfs who ihref sheet = ⟨.ok ci, l⟩)
+    (hre : replRules (replacer href) (hoist ci) = .ok rebased)
+    (hk : keepAll vfs who th rebased.1 = ⟨.ok m, l'⟩) :
+    cascRule vfs who th (.imp href mediaAll true ihref sheet)
+      = ⟨.ok (.comment (startComment href) :: m), l ++ l'⟩ := by
+  simp [cascRule, hi, hre, hk]
+
+/-- the group of an @import whose target was not found: the @import itself, looked for once more from the
+flattened sheet (C19-unavailable-refetched in general: that is one fetcher call whenever the URL is well-formed and
+not the sheet itself) -/
+theorem group_of_unavailable_import (vfs : Vfs) (who : Who) (th href media a : Str) (b : Sheet) (x : Rule) (l : FLog)
+    (h : setHref (vfs.length + 2) vfs who [th] href media = ⟨.ok x, l⟩) :
+    cascRule vfs who th (.imp href media false a b) = ⟨.ok [x], l⟩ := by
+  simp [cascRule, keep1, h]
+
+section
+open CssVerif.Proto
+
+/-- non-vacuity of `resolveImports_flat_kept_partial`, and the three known findings read off the specification:
+main = `@import "a.css"; @import "b.css" print; @import "x.css";` with `a.css` = `a{}`, `b.css` = `@page{}` (cannot be
+wrapped), `x.css` unavailable: the specification has the value comment, @import b, @import x, style rule, comment
+(kinds 1 2 2 4 1) with one fetcher call -/
+example :
+    (flatSpec [] .user (cps "http://h/m.css")
+      [.imp (cps "a.css") mediaAll true (cps "http://h/a.css") [.style (cps "a") []],
+       .imp (cps "b.css") (cps "print") true (cps "http://h/b.css") [.page [] [] []],
+       .imp (cps "x.css") mediaAll false [] []]).okMap (fun t => (t.map Rule.tag, importHrefs t))
+      = some ([1, 2, 2, 4, 1], [cps "b.css", cps "x.css"]) ∧
+    (flatSpec [] .user (cps "http://h/m.css")
+      [.imp (cps "a.css") mediaAll true (cps "http://h/a.css") [.style (cps "a") []],
+       .imp (cps "b.css") (cps "print") true (cps "http://h/b.css") [.page [] [] []],
+       .imp (cps "x.css") mediaAll false [] []]).log = [(.user, cps "http://h/x.css")] := by
+  constructor <;> decide +kernel
+
+/-- non-vacuity, nested: `@import "css/a.css";` with `css/a.css` = `@import "b.css" print; a{}` and `css/b.css` =
+`@page{}`: the kept @import of the inner sheet is taken over into the outer group, behind the marker comment -/
+example :
+    (flatSpec [] .user (cps "http://h/m.css")
+      [.imp (cps "css/a.css") mediaAll true (cps "http://h/css/a.css")
+        [.imp (cps "b.css") (cps "print") true (cps "http://h/css/b.css") [.page [] [] []],
+         .style (cps "a") []]]).okMap (fun t => (t.map Rule.tag, importHrefs t))
+      = some ([1, 2, 1, 4], [cps "b.css"]) := by decide +kernel
+
+/-- non-vacuity of the group theorems: their hypotheses hold for the witness trees above -/
+example : cascRules [] .user (cps "http://h/b.css") [.page [] [] []] = ⟨.ok [.page [] [] []], []⟩ ∧
+    replRules (replacer (cps "b.css")) (hoist [.page [] [] []]) = .ok ([.page [] [] []], []) ∧
+    cps "print" ≠ mediaAll ∧ ([Rule.page [] [] []]).all combinable = false := by
+  refine ⟨rfl, rfl, by decide, rfl⟩
 end
 
 /-! ## T19.3, fetching — each available target is fetched exactly once per import edge
